@@ -117,10 +117,25 @@ func (t *twCache) do(o *model.Op) (r tobs) {
 	case model.CGetAndRefresh:
 		r.V, r.OK = c.GetAndRefresh(k, d)
 	case model.CGetOrCompute:
-		r.V, r.OK = c.GetOrCompute(k, func() interface{} { r.Fn = append(r.Fn, "called"); return tval(o.Val) }, d)
+		r.V, r.OK = c.GetOrCompute(k, func() interface{} {
+			r.Fn = append(r.Fn, "called")
+			if o.FnAdv > 0 {
+				vs.NowNS += o.FnAdv // the loader takes time
+			}
+			if o.FnDef != 0 {
+				c.SetDefaultExpiration(time.Duration(o.FnDef))
+			}
+			return tval(o.Val)
+		}, d)
 	case model.CCompute:
 		r.V, r.OK = c.Compute(k, func(old interface{}, loaded bool) (interface{}, bool) {
 			r.Fn = append(r.Fn, fmt.Sprintf("(%#v,%v)", old, loaded))
+			if o.FnAdv > 0 {
+				vs.NowNS += o.FnAdv
+			}
+			if o.FnDef != 0 {
+				c.SetDefaultExpiration(time.Duration(o.FnDef))
+			}
 			_, del := model.FnResult(o.Fn, o.Val, loaded)
 			return tval(o.Val), del
 		}, d)
@@ -208,10 +223,25 @@ func (t *twCacheOf) do(o *model.Op) (r tobs) {
 	case model.CGetAndRefresh:
 		r.V, r.OK = c.GetAndRefresh(k, d)
 	case model.CGetOrCompute:
-		r.V, r.OK = c.GetOrCompute(k, func() interface{} { r.Fn = append(r.Fn, "called"); return tval(o.Val) }, d)
+		r.V, r.OK = c.GetOrCompute(k, func() interface{} {
+			r.Fn = append(r.Fn, "called")
+			if o.FnAdv > 0 {
+				vs.NowNS += o.FnAdv // the loader takes time
+			}
+			if o.FnDef != 0 {
+				c.SetDefaultExpiration(time.Duration(o.FnDef))
+			}
+			return tval(o.Val)
+		}, d)
 	case model.CCompute:
 		r.V, r.OK = c.Compute(k, func(old interface{}, loaded bool) (interface{}, bool) {
 			r.Fn = append(r.Fn, fmt.Sprintf("(%#v,%v)", old, loaded))
+			if o.FnAdv > 0 {
+				vs.NowNS += o.FnAdv
+			}
+			if o.FnDef != 0 {
+				c.SetDefaultExpiration(time.Duration(o.FnDef))
+			}
 			_, del := model.FnResult(o.Fn, o.Val, loaded)
 			return tval(o.Val), del
 		}, d)
@@ -404,8 +434,15 @@ func buildTwins(ts twinSpec) (twin, twin) {
 }
 
 func c12Compare(a, b twin, o *model.Op) (tobs, string) {
+	// both twins live through the same timeline, also when the user function advances the clock
+	t0 := vs.NowNS
 	ra := a.do(o)
+	t1 := vs.NowNS
+	vs.NowNS = t0
 	rb := b.do(o)
+	if vs.NowNS < t1 {
+		vs.NowNS = t1
+	}
 	if !reflect.DeepEqual(ra, rb) {
 		return ra, fmt.Sprintf("%s:\n  %s -> %s\n  %s -> %s", o.String(), a.name(), ra.String(), b.name(), rb.String())
 	}
@@ -503,6 +540,15 @@ func runC12Case(rt *rapid.T) {
 				o = st.genOp(rt)
 				if o.K == model.HBulkGet {
 					o.K = model.CItems
+				}
+				if o.K == model.CGetOrCompute || o.K == model.CCompute {
+					// loaders are slow by nature: time passes inside the user function, and it may touch settings
+					if uniform(rt, 5, "slowLoader") < 2 {
+						o.FnAdv = int64(irange(rt, 1, 120, "loaderTime"))
+					}
+					if uniform(rt, 6, "loaderSetsDefault") == 0 {
+						o.FnDef = pick(rt, []int64{7, 300, model.NoExpiration}, "loaderDefault")
+					}
 				}
 			}
 			step(o)
